@@ -9,7 +9,7 @@ from ..model.elements import SYM, Z
 from ..universe import geom as G
 
 PROP = "C20"
-RULE = ("round trip xyz_str -> from_xyz for n in {1,2,3,7,40,100,1000,1001} (thorough: also 99, 101, 999, 9999, 10000, 10001) atoms, all 118 elements cycled through the positions, every "
+RULE = ("round trip xyz_str -> from_xyz (and through a UTF-8 file -> from_xyz_file) for n in {1,2,3,7,40,100,1000,1001} (thorough: also 99, 101, 999, 9999, 10000, 10001) atoms, all 118 elements cycled through the positions, every "
         "coordinate from a value grid (0, -0, +-1e-9, +-4.9e-9, +-5.1e-9, +-0.123456789, +-1, +-12345.678901234, +-999999.99999999, "
         "+-1e6; full product for one atom, Latin-square covering above), 9 comment lines incl. None, empty, numeric-looking, "
         "unicode, tabs, 200 characters, braces / percent signs / shell characters: elements identical, |delta| <= 0.5e-8 (+1 ulp).  Connectivity: all 118x118 element pairs "
@@ -67,6 +67,24 @@ def _rt(els, xyz, comment, out, item, tag):
     if [int(t) for t in h.atom_types] != [Z[e] for e in els]:
         V("elements", f"elements changed: {[SYM[int(t)] for t in h.atom_types][:5]}")
         return
+    if comment is None or "\r" not in comment:
+        # the file route (from_xyz_file) must read the same text the same way; the file is written as UTF-8 without newline
+        # translation, vcheck pins PYTHONUTF8=1 so that the default encoding does not depend on the locale.  (A bare carriage
+        # return inside a comment is a line break for a text-mode file and is left to the string route.)
+        import os
+        import tempfile
+
+        fd, path = tempfile.mkstemp(suffix=".xyz")
+        try:
+            with os.fdopen(fd, "w", encoding="utf-8", newline="") as f:
+                f.write(txt)
+            hf = Geometry.from_xyz_file(path)
+            if [int(t) for t in hf.atom_types] != [int(t) for t in h.atom_types] or not np.array_equal(np.asarray(hf.coords), np.asarray(h.coords)):
+                V("file-route-differs", "from_xyz_file reads the written text differently from from_xyz")
+        except Exception as e:
+            V("file-route-raised:" + type(e).__name__, f"from_xyz_file raised {e!r} for a text that from_xyz reads")
+        finally:
+            os.unlink(path)
     a = np.array(xyz, dtype=float)
     b = np.asarray(h.coords)
     if b.shape != a.shape:
